@@ -729,6 +729,27 @@ def case_manifests(rep):
                     rep.fail("selection order recorded under the matching identifier", inp, got=list(so.keys()))
             if sorted(p.id for p in mph) != sorted(cvrs[s].id for s in sample if cvrs[s].phantom):
                 rep.fail("phantom manual record exactly for sampled phantom CVRs", inp, got=[p.id for p in mph])
+    # the same look-up for Hart (identifiers "<batch>_<card>", phantoms "phantom-<batch>-<card>")
+    hman = pd.DataFrame({"Container": ["c1", "c2"], "Tabulator": ["t1", "t2"], "Batch Name": ["1", "3"], "Number of Ballots": [3, 3]})
+    hcvrs = [CVR(id=f"{(1, 3)[i // 3]}_{i % 3 + 1}", votes={}) for i in range(6)]
+    hcvrs += [CVR(id="phantom-1-1", votes={}, phantom=True), CVR(id="phantom-1-2", votes={}, phantom=True)]
+    for r in range(1, len(hcvrs) + 1):
+        for sample in itertools.permutations(range(len(hcvrs)), r) if r <= 2 else [tuple(rep.rng.sample(range(len(hcvrs)), r)) for _ in range(12)]:
+            inp = {"vendor": "Hart", "sample": sample}
+            rep.case(inp)
+            try:
+                cards, so, cs, mph = Hart.sample_from_cvrs(hcvrs, hman, np.array(sample))
+            except Exception as ex:
+                rep.fail("sample_from_cvrs does not raise", inp, got=type(ex).__name__ + ": " + str(ex)[:80])
+                continue
+            if [id(c) for c in cs] != [id(hcvrs[s]) for s in sample]:
+                rep.fail("returns the sampled CVRs in selection order", inp, got=[c.id for c in cs])
+            for i, s in enumerate(sample):
+                if hcvrs[s].id not in so or so[hcvrs[s].id]["selection_order"] != i:
+                    rep.fail("selection order recorded under the matching identifier", inp,
+                             got={k: v.get("selection_order") for k, v in so.items()}, expected={hcvrs[s].id: i})
+            if sorted(p.id for p in mph) != sorted(hcvrs[s].id for s in sample if hcvrs[s].phantom):
+                rep.fail("phantom manual record exactly for sampled phantom CVRs", inp, got=[p.id for p in mph])
     rep.sample({"vendor": "Dominion", "sizes": [2, 0, 1], "max_cards": 5, "sample": [1, 2, 3, 4, 5]})
 
 
